@@ -98,6 +98,10 @@ func c10Ops() []c10Op {
 		for k := 0; k < c10S; k++ {
 			ops = append(ops, c10Op{name: "Multiply", elem: true, i: i, j: i, k: k})
 		}
+
+		for k := range c10BadElem() {
+			ops = append(ops, c10Op{name: "Decode(invalid)", elem: true, i: i, j: i, k: k})
+		}
 	}
 
 	for i := 0; i < c10S; i++ {
@@ -110,9 +114,41 @@ func c10Ops() []c10Op {
 				ops = append(ops, c10Op{name: n, i: i, j: j})
 			}
 		}
+
+		ops = append(ops, c10Op{name: "CSelect(nil)", i: i, j: i})
 	}
 
 	return ops
+}
+
+// c10BadElem lists invalid element encodings: decoding them must fail and leave the receiver untouched.
+func c10BadElem() [][]byte {
+	c10BadOnce.Do(func() { c10Bad = c10BadElemBuild() })
+	return c10Bad
+}
+
+var (
+	c10BadOnce sync.Once
+	c10Bad     [][]byte
+)
+
+func c10BadElemBuild() [][]byte {
+	g := ref.G()
+	off := int64(1)
+
+	for ; ref.Fp.IsSquare(ref.Secp.RHS(big.NewInt(off))); off++ {
+	}
+
+	unc := ref.EncUncompressed(g)
+	unc[64] ^= 1
+	bad5 := ref.Enc(g)
+	bad5[0] = 5
+
+	return [][]byte{
+		append([]byte{2}, ref.Bytes32(big.NewInt(off))...), // x in range, not on the curve
+		append([]byte{3}, ref.Bytes32(ref.P)...),           // x = p
+		bad5, ref.Enc(g)[:32], unc, {1},
+	}
 }
 
 // memoised oracle scalar multiplication
@@ -237,6 +273,10 @@ func c10Apply(st c10State, m c10Model, o c10Op) (ns c10State, nm c10Model, key, 
 			case "Multiply":
 				r.Multiply(sc[o.k])
 				nm.e[o.i] = c10Mul(m.s[o.k], m.e[o.i])
+			case "Decode(invalid)":
+				if derr := r.Decode(c10BadElem()[o.k]); derr == nil {
+					err = fmt.Errorf("invalid encoding %x accepted", c10BadElem()[o.k])
+				}
 			default:
 				panic("unknown element op " + o.name)
 			}
@@ -321,6 +361,10 @@ func c10Apply(st c10State, m c10Model, o c10Op) (ns c10State, nm c10Model, key, 
 		case "CSelect(1,self,arg)":
 			err = r.CSelect(1, r, a)
 			nm.s[o.i] = m.s[o.j]
+		case "CSelect(nil)":
+			if cerr := r.CSelect(1, r, nil); cerr == nil {
+				err = fmt.Errorf("CSelect with a nil operand reported no error")
+			}
 		default:
 			panic("unknown scalar op " + o.name)
 		}
@@ -340,6 +384,10 @@ func c10Apply(st c10State, m c10Model, o c10Op) (ns c10State, nm c10Model, key, 
 		ns.e[i] = rawOf(el[i])
 
 		if o.elem && i == o.i {
+			if (o.name == "Decode(invalid)" || o.name == "Add(nil)" || o.name == "Subtract(nil)") && ns.e[i] != st.e[i] {
+				return ns, nm, o.name + "/receiver-changed", fmt.Sprintf("%s: e%d", desc(), i)
+			}
+
 			if ok, why := elementIs(el[i], nm.e[i]); !ok {
 				return ns, nm, o.name + "/receiver-differs-from-model", fmt.Sprintf("%s: e%d: %s", desc(), i, why)
 			}
